@@ -32,7 +32,7 @@ CLAIMS['C08'] = dict(
        "UTF-8 decoder facts): every source byte is accounted for exactly once, verbatim runs are whole valid UTF-8 sequences needing no escape, every escape "
        "literal decodes to the rune it replaces (hex digits by arithmetic), invalid bytes become \\ufffd, quotes first and last, no out-of-range slice. "
        "Integer marshalers write exactly one decimal string whose mathematical value equals the value (IDs quoted); non-finite floats give an error and no output; "
-       "a failing context marshaler yields exactly `null` plus one error; Array/FieldSet writers follow the JSON array/object typestate for any length.",
+       "a failing context marshaler yields exactly `null` plus one error; Array/FieldSet writers follow the JSON array/object typestate for any length. Omittable[T].MarshalGQL/MarshalGQLContext either write the wrapped value or fail loudly: after a failed json.Marshal or a ContextMarshaler error nothing is written and they do not return normally (repaired defect D18).",
   note=COMMON_NOTE + "Assumed: UTF-8 decoder axioms (A-utf8), io.Writer implementations neither panic nor touch gqlgen's heap, strconv formats decimal values. "
        "Time/Duration/UUID/Map/Any/Omittable and float text round-trip are not decided. The step from the typestate to 'an RFC 8259 parser decodes the original' is checked only by the replay oracle.")
 
@@ -41,7 +41,7 @@ CLAIMS['C10'] = dict(
   text="For every request body / upload map / websocket start payload: every implicit panic site (nil dereference, failed type assertion, index, nil-map write) in gqlgen's own code of "
        "POST/GET/GRAPHQL/UrlEncodedForm/SSE/MultipartMixed/MultipartForm.Do, UrlEncodedForm.parse*, wsConnection.subscribe and RawParams.AddUpload is a discharged obligation "
        "(AddUpload fully nopanic for any variables tree, key and path); CreateOperationContext is only called with non-nil parameters (JSON null bodies); in MultipartForm.Do the body is read only "
-       "after the size-limited reader is installed and every created temp file has its removal deferred before anything else can fail (ghost counters, loop invariant); the websocket subscription goroutine lets no panic escape.",
+       "after the size-limited reader is installed and every created temp file has its removal deferred before anything else can fail (ghost counters, loop invariant); the websocket subscription goroutine lets no panic escape. A refused websocket handshake always ends in a protocol close: wsConnection.init returns false only after close() was called, for every first message including a connection_init whose payload is not an object (repaired defect D10).",
   note=COMMON_NOTE + "net/http, mime/multipart, os, io, encoding/json, gorilla/websocket trusted not to panic on client bytes; stable-field assumption for wsConnection.active/exec; "
        "bytesReader and the websocket message tables are not yet under contract; delivery of exact upload bytes is not decided.")
 
@@ -52,19 +52,23 @@ CLAIMS['C03'] = dict(technique=GOCV,
        "and returns without errors only validated documents; CreateOperationContext returns no error list only if every parameter mutator and context mutator returned nil (ghost flag + loop invariants), the operation was found, "
        "and variable coercion succeeded, and never returns an empty error list; every transport (POST, GET, GRAPHQL, urlencoded, multipart form, SSE, multipart/mixed, websocket subscribe) calls DispatchOperation only on the no-error path, at most once; "
        "the interceptor chain is built from the last extension to the first with each wrapper calling its hook once and the earlier chain once; mutators are collected in registration order; "
-       "DispatchOperation/DispatchError invoke the operation/response middleware exactly once.",
-  note=COMMON_NOTE + "gqlparser (parser, validator) and cache implementations behind trusted contracts; frames assumed for user mutators; no thread model: the validator rule-table race and concurrent requests are NOT decided.")
+       "DispatchOperation/DispatchError invoke the operation/response middleware exactly once. "
+       "Lock discipline around gqlparser's process-global rule list (repaired defect D14a): serving a request never calls RemoveRule/ReplaceRule/AddRule outside the once-function of validate, which runs under the write lock; every validator.Validate call holds the read lock, uses the full rule list (no explicit rules) and is released on every exit.",
+  note=COMMON_NOTE + "gqlparser (parser, validator) and cache implementations behind trusted contracts; frames assumed for user mutators; no thread model: the lock discipline is proved, its consequence (no request validated against a half-replaced rule list) is the usual mutual-exclusion argument; sync.Once/RWMutex trusted.")
 
 CLAIMS['C07'] = dict(technique=GOCV,
   text="POST.Do returns the pooled RawParams object to the pool with EVERY field zero (expanded mechanically over all fields of the struct from go/types, so a new field without reset fails) and non-nil on every exit path including panics from callees; "
-       "parseQuery's cache lookups and insertions use exactly the query text as key and it has no access to variables, operation name or headers; only validated documents parsed from that text can come out of the cache.",
+       "parseQuery's cache lookups and insertions use exactly the query text as key and it has no access to variables, operation name or headers; only validated documents parsed from that text can come out of the cache; mergeHeaders never writes the configured (shared) header maps. "
+       "Serving a request must not mutate process-global state: the one place that does (the rule swap for SetDisableSuggestion) is the known finding D14b.",
   note=COMMON_NOTE + "sync.Pool and cache implementations trusted; the relational statement (same response as a fresh server) and concurrency are not decided; APQ memory is C15.")
 
 CLAIMS['C09'] = dict(technique=GOCV,
   text="GET.Do dispatches only when CreateOperationContext returned no error AND the operation it selected (op == opCtx.Operation, by the executor contract and determinism of ForName) is a query, otherwise 406 and nothing dispatched; "
        "in every HTTP transport WriteHeader is only ever called before any dispatch and a path that dispatched never calls WriteHeader (execution started => 200); on CreateOperationContext errors the status comes from statusFor/statusForGraphQLResponse "
        "chosen by the negotiated content type (422/400 for protocol errors, else 200); content negotiation without explicit header yields one of the two GraphQL media types, empty Accept => application/json; "
-       "Server.getTransport returns the first supporting transport; ServeHTTP lets no panic escape and answers 422 once on a recovered panic, 400 without transport.",
+       "Server.getTransport returns the first supporting transport; ServeHTTP lets no panic escape and answers 422 once on a recovered panic, 400 without transport. "
+       "Content type (repaired defects D15-D17): in GET, POST, application/graphql, urlencoded and multipart-form Do no JSON body is written before writeHeaders ran; writeHeaders always leaves a Content-Type (a configured one of any case, else application/json); "
+       "handler.sendError and transport.SendError type their JSON body (application/json unless the transport chose one) before the single WriteHeader and the single body write.",
   note=COMMON_NOTE + "executor interface contract assumed here and proved under C03; header map contents and JSON body validity not decided.")
 
 CLAIMS['C15'] = dict(technique=GOCV,
@@ -82,6 +86,7 @@ CLAIMS['C16'] = dict(technique=GOCV,
 CLAIMS['C01'] = dict(technique=GOCV,
   text="Runtime mechanisms of execution semantics as contracts on the real graphql/ code: shouldIncludeNode == !skip && include; instanceOf/equalPath with quantified loop invariants; collectFields only groups fields that passed @skip/@include and creates "
        "collected fields with NO selections (so merging never writes into the parsed, possibly cached, document); FieldContext.Path returns freshly allocated storage (frame: no pre-existing location written) so sibling paths cannot alias; "
+       "a fragment counts as visited only through a spread that passed @skip/@include (repaired defect D12); getOrCreateAndAppendField moves past an entry only if it must not be merged - same field name and response key with the same, an equally named or (like the new one) an interface parent definition is one entry (repaired defect D13); "
        "AddError records exactly one presented error for a non-nil error; HasFieldError is the existential over recorded paths; Array/FieldSet writers emit entries in order with correct separators. "
        "Generated field/object/list functions are covered by probe-proved family contracts when listed in the evidence.",
   note=COMMON_NOTE + "Partial by design (DESIGN.md C01): equivalence with the whole execution algorithm and all schemas other than the probes are not decided.")
@@ -109,24 +114,28 @@ CLAIMS['C05'] = dict(technique=GOCV + "; family contracts instantiated on code r
 
 CLAIMS['C13'] = dict(technique=GOCV + "; family contracts instantiated on code regenerated from the templates",
   text="Narrow: the merge equivalence is a relation between two executions and is not decided. Decided: collectFields marks fields collected through @defer fragments only after inclusion checks; in every generated object function a deferred field is registered only in the FieldSet of its label and never also in the main set, "
-       "and deferred groups are only started when the object itself is valid; processDeferredGroup increments the pending counter once and starts exactly one goroutine that dispatches the group once and sends exactly one result carrying the group's own path and label." + PROBE,
-  note=COMMON_NOTE + "Channel sends are ghost events; hasNext sequencing and delivery order are not decided.")
+       "and deferred groups are only started when the object itself is valid; processDeferredGroup increments the pending counter once and starts exactly one goroutine that dispatches the group once and sends exactly one result carrying the group's own path and label. "
+       "Delivery order of nested groups (repaired defect D19): a group reads the `delivered` channel of the group it is nested in from its context, resolves its fields under a context carrying its own channel, sends only after having received from the parent's channel (when there is one) and closes its own channel right after its send." + PROBE,
+  note=COMMON_NOTE + "Channel sends/receives/closes are ghost events: that 'sent after the parent' implies 'delivered after the parent' rests on the single consumer of deferredResults; hasNext sequencing is not decided.")
 
 CLAIMS['C20'] = dict(technique=GOCV + "; family contracts instantiated on federation code regenerated from the templates",
   text="On the generated _entities code: buildRepresentationGroups records for every entry the loop index of its representation and that very representation (hence pairwise distinct indices); __resolve_entities returns a list with one slot per representation and joins every group; "
        "in resolveEntityGroup every spawned closure writes at most one slot, list[rep.index] of its own representation, only when its resolver succeeded, and reports at most one error otherwise, one goroutine and one Done per representation; "
-       "resolveManyEntities zips positionally over a typedReps slice proved to have exactly len(reps) entries; resolveEntity/resolveManyEntities let no panic escape (they run on goroutines); a resolver name is returned only if not all key fields were null." + PROBE,
+       "resolveManyEntities zips positionally over a typedReps slice proved to have exactly len(reps) entries; resolveEntity/resolveManyEntities let no panic escape (they run on goroutines); a resolver name is returned only if not all key fields were null. "
+       "Batch resolvers and several @key directives (repaired defect D20, probe /verif/probes/fedmultikeys): every representation of a group went through the resolver lookup before the group - or what is left of it after those selecting another resolver were split off - is handed to a batch resolver." + PROBE,
   note=COMMON_NOTE + "No thread model: schedule independence follows only from the proved index-disjointness. Fieldset parsing and other schemas not decided.")
 
 CLAIMS['C11'] = dict(technique=GOCV,
   text="Narrow: the protocol is a concurrent state machine and its all-interleavings quantifier is not decidable here. Decided sequential facts on the real websocket code: wsConnection.init returns true only after the FIRST message was connection_init, the init function accepted it and the ack was written, and never touches the executor; "
        "Websocket.Do enters the message loop only after init returned true; close() is idempotent (second call: no frame, no cancel, no callback; first call: exactly one close frame and one socket close, callback at most once) with the mutex held around the frame write and balanced on every path; "
-       "write() sends only while holding the mutex; run() hands the close watcher the context derived for (and cancelled with) the loop and reaches subscribe only from a start message; the subscription goroutine dispatches only after CreateOperationContext succeeded, drains the handler, and cannot die from a panic.",
+       "write() sends only while holding the mutex; run() hands the close watcher the context derived for (and cancelled with) the loop and reaches subscribe only from a start message; the subscription goroutine dispatches only after CreateOperationContext succeeded, drains the handler, and cannot die from a panic; a refused handshake always closes (D10). "
+       "One operation per id: registering a cancel function must not replace the one of a running operation - this obligation fails on the current code and is the known finding D11 (results after complete, operation that cannot be stopped).",
   note=COMMON_NOTE + "gorilla/websocket, message exchangers and user callbacks trusted; channel operations are not modelled; ordering across goroutines, stop/complete races and 'at most one completion per id' are NOT decided.")
 
 CLAIMS['C12'] = dict(technique=GOCV,
-  text="Narrow: timing and interleavings are not decidable here. Decided: lock discipline on the SSE connection - every write to the shared ResponseWriter (event, completion marker, keep-alive ping) and every Flush happens while the connection mutex is held "
-       "(typestate ghost, closures passed to the locking helper are verified inline under held=true), writeJsonWithSSE emits one event per payload with one marshal, the completion marker is written after the single dispatch; "
+  text="Narrow: timing and interleavings are not decidable here. Decided: write discipline on the SSE connection - every write to the shared ResponseWriter (event, completion marker, keep-alive ping) happens under the connection mutex or while no keep-alive goroutine exists (not started / stopped), every Flush under the mutex "
+       "(typestate ghost, closures passed to the locking helper are verified inline under held=true); the connection is closed in the same lock hold that writes `complete` (or before it), write() is a no-op on a closed connection, and Do stops the keep-alive on EVERY exit, panics included (onexit clause) - so no ping follows `complete` and nothing touches the ResponseWriter after the handler returned (repaired defect D9); "
+       "writeJsonWithSSE emits one event per payload with one json.Marshal of the response (compact, no raw newline), the completion marker is written exactly once after the single dispatch; "
        "multipartResponseAggregator.flush works entirely under its mutex, writes nothing when nothing is pending, writes the initial payload at most once and clears it, writes the pending incremental payloads at most once in one array and clears them, "
        "and ends with a delimiter whose 'closing' flag is exactly !hasNext; Add stores payloads under the mutex in arrival order.",
   note=COMMON_NOTE + "select/channel operations modelled as nondeterministic choice; exactly-once delivery across goroutines, disconnects and JSON validity (encoding/json) are not decided.")
